@@ -117,6 +117,9 @@ def main(tier, seed):
         for key in rng.sample(["staff", "serviceTrip", "deadHeadTrip", "idle"], rng.choice([1, 2])):
             hi["parameters"]["costs"][key] = 10 ** rng.choice([9, 10, 11, 12, 13])
         insts.append(hi)
+    # the edges of the valid input space (a single location, every departure at the same instant, exactly one departure
+    # segment, with slots without tracks / empty depots / idle types); own random stream
+    insts += instgen.boundary_instances(random.Random(seed * 131 + 6), 10 if tier == "quick" else 300)
     results = lib.pmap(run_one, [(d, k, inst) for k, inst in enumerate(insts)], workers=8)
     return solvefam.conclude(PID, tier, seed, t0, proof, results,
                              "exit status / wall clock of a child process running server::solve_instance, debug "
